@@ -503,3 +503,29 @@ func mutC04() []mutant {
 			Old: "\t\tif candidate != alg {\n\t\t\treturn fmt.Errorf(\"%w: verifier %v: header %v\", ErrAlgorithmMismatch, alg, candidate)", New: "\t\tif candidate != alg {\n\t\t\treturn fmt.Errorf(\"%w: verifier %v: header %v\", ErrAlgorithmNotFound, alg, candidate)"},
 	}
 }
+
+// checkGatesOnly: discovers the two algorithm gates from the key sites and
+// applies R04.2 to them (shared with C01: signing and verification must agree
+// on when a missing alg is tolerated).
+func checkGatesOnly(r *Report) {
+	P := r.P
+	gates := map[*ssa.Function]*gateInfo{}
+	for _, s := range P.keySites() {
+		if !P.hasHeadersReceiver(s.fn) {
+			continue
+		}
+		algInvoke := "invoke:Verifier.Algorithm"
+		if s.sign {
+			algInvoke = "invoke:Signer.Algorithm"
+		}
+		if g := gateCallIn(P.factsBefore(s.call), algInvoke, P.terms.of(s.recv)); g != nil {
+			if gfn := P.calleeOfTerm(g); gfn != nil && gates[gfn] == nil {
+				gates[gfn] = &gateInfo{fn: gfn, sign: s.sign}
+			}
+		}
+	}
+	r.floor("R04.2", len(gates), 2, "gate functions")
+	for _, gi := range sortedGates(gates) {
+		checkGate(r, gi)
+	}
+}
